@@ -64,7 +64,10 @@ def run(ctx):
         t.errors.append("harness: " + e)
     t.min_nontrivial = 0 if ctx["replay"] else 100
     if ctx["model_available"] and not ctx["widen"]:
-        cases = {(c["shard"], c["index"]): c for c in (r.get("cases") or [])}
+        e2e_cases = {(c["shard"], c["index"]): c for c in (r.get("e2e_cases") or [])}
+        per = r.get("direct_per_shard", 5000)
+        ndirect = r.get("direct_cases", 0)
+        direct_shards = (ndirect + per - 1) // per
         directs = None
         e2e = None
         for res in vlib.eval_shards(out, jobs=16):
@@ -73,20 +76,20 @@ def run(ctx):
                 continue
             shard = int(os.path.basename(res["shard"])[6:-2])
             for idx in res["bad"]:
-                c = cases.get((shard, idx))
+                if shard < direct_shards:
+                    if directs is None:
+                        directs = json.load(open(os.path.join(out, "direct.json")))
+                    t.mismatches.append({"observable": "direct-call", "input": {"direct": directs[shard * per + idx]},
+                                         "detail": res.get("raw", "")[:500]})
+                    continue
+                c = e2e_cases.get((shard, idx))
                 if c is None:
                     t.errors.append("mismatch on unknown case %d/%d" % (shard, idx))
                     continue
-                if c["kind"] == "direct":
-                    if directs is None:
-                        directs = json.load(open(os.path.join(out, "direct.json")))
-                    t.mismatches.append({"observable": "direct-call", "input": {"direct": directs[c["id"]]},
-                                         "detail": res.get("raw", "")[:500]})
-                else:
-                    if e2e is None:
-                        e2e = json.load(open(os.path.join(out, "e2e.json")))
-                    t.mismatches.append({"observable": "client-callbacks", "input": {"desc": e2e[str(c["id"])]},
-                                         "detail": res.get("raw", "")[:500]})
+                if e2e is None:
+                    e2e = json.load(open(os.path.join(out, "e2e.json")))
+                t.mismatches.append({"observable": "client-callbacks", "input": {"desc": e2e[str(c["id"])]},
+                                     "detail": res.get("raw", "")[:500]})
         t.mismatches.sort(key=lambda m: len(json.dumps(m["input"])))
     if not ctx["replay"] and not ctx["widen"]:
         # drop the bulky per-run files; the replay files carry the inputs that matter
